@@ -344,17 +344,24 @@ def rule_forwarders(rep, prog, eff):
                 r = eff.inline(rts[0][1]) if len(rts) == 1 else ('unknown', 'multi')
                 ok = r[0] == 'agg' and r[1] == "bitmap::backend::slice::BaseSlice" and deep_strip(r[3][1]) == ('param', 2, 'offset')
                 rep("R5.3.atomic", b.key, ok, b.where(), f"slice_at returns {tstr(r)}; required a BaseSlice over self at `offset`")
-    # set_addr_range -> set_reset_addr_range(start, len, true)
+    # set_addr_range turns its own (start_addr, len) into the page range — itself or through the range helper — and what executes
+    # there sets bits (R9.6 of C09: polarity, followed through a shared helper with the constant / closure it is given)
+    from . import c09
     for b in prog.find(adt="bitmap::backend::atomic_bitmap::AtomicBitmap", name="set_addr_range"):
         n += 1
-        cs = [c for c in b.calls() if canon(c.target or "").endswith("set_reset_addr_range")]
-        ok = len(cs) == 1
-        detail = "no call to set_reset_addr_range"
-        if ok:
-            a = [deep_strip(x) for x in cs[0].args()]
-            ok = a[1] == ('param', 2, b.local_name(2)) and a[2] == ('param', 3, b.local_name(3)) and a[3] == ('const', 1)
-            detail = f"forwards ({', '.join(tstr(x) for x in a)})"
-        rep("R5.3.atomic", b.key, ok, b.where(), detail + "; required (start_addr, len, set = true)")
+        rb = c09.range_bodies(prog)
+        direct = b in rb
+        fwd = False
+        detail = "no range helper called"
+        for c in b.calls():
+            tb = prog.by_id.get(c.target) if c.target else None
+            if tb in rb and len(c.args()) >= 3:
+                a = [deep_strip(x) for x in c.args()]
+                fwd = a[1] == ('param', 2, b.local_name(2)) and a[2] == ('param', 3, b.local_name(3))
+                detail = f"forwards ({', '.join(tstr(x) for x in a)})"
+        kinds = sorted({k for k, _c in c09._rmw_kinds(prog, b, {})})
+        rep("R5.3.atomic", b.key, (direct or fwd) and kinds == ["set"], b.where(),
+            ("builds the page range itself" if direct else detail) + f"; read-modify-write operations that can execute: {kinds}; required: its own (start_addr, len), setting bits")
     return n
 
 
